@@ -35,6 +35,9 @@ pub enum AdsrOp {
     /// turn the time of the phase that is running right now down to `frac` samples (clamped to the 1 ms minimum by the
     /// envelope), so that it ends within the next tick(s) wherever it currently is
     CutShort(f32),
+    /// n parameter writes in a row with no tick in between: set_x(a), set_x(b), set_x(a), ... for x = attack / decay /
+    /// release time (which 0..2) or the sustain level (which 3)
+    ParamBurst { which: u8, a: f32, b: f32, n: u16 },
 }
 
 #[derive(Debug, Clone, Serialize, Deserialize, PartialEq)]
@@ -667,6 +670,19 @@ impl<'a> Sim<'a> {
                     self.tick_n(*ticks as u64)?;
                     self.gate_off()?;
                     self.tick_n(*ticks as u64)?;
+                }
+                Ok(())
+            }
+            AdsrOp::ParamBurst { which, a, b, n } => {
+                self.stats.count("label.param_burst", 1);
+                for i in 0..*n {
+                    let v = if i % 2 == 0 { *a } else { *b };
+                    match *which % 4 {
+                        0 => self.set_attack(v)?,
+                        1 => self.set_decay(v)?,
+                        2 => self.set_release(v)?,
+                        _ => self.set_sustain(v)?,
+                    }
                 }
                 Ok(())
             }
